@@ -15,6 +15,7 @@ import (
 	"encoding/json"
 	"fmt"
 	"os"
+	"runtime/pprof"
 	"strconv"
 	"testing"
 	"time"
@@ -104,6 +105,12 @@ func workerMain() int {
 		return 2
 	}
 	defer f.Close()
+	if pp := os.Getenv("VERIF_CPUPROFILE"); pp != "" {
+		if pf, err := os.Create(pp); err == nil {
+			pprof.StartCPUProfile(pf)
+			defer pprof.StopCPUProfile()
+		}
+	}
 	bw := bufio.NewWriter(f)
 	for idx := from; idx < to; idx++ {
 		fmt.Fprintf(bw, "{\"start\":%d}\n", idx)
